@@ -85,6 +85,7 @@ def run(ctx):
         sc = sigclass(s)
         if sc[0] != ("asc",):
             ctx.sig(*sc)
+    end_to_end(ctx, rng)
     ctx.sample({"s_units": J.utf16_units("a\"\\\n\U0001F600"), "literal": writer.string("a\"\\\n\U0001F600")})
     ctx.sample({"s_units": [0xD800], "literal": writer.string("\ud800")})
     ctx.exhaustive = True
@@ -95,6 +96,49 @@ def run(ctx):
             return
         javac_oracle(ctx, cases, lits)
     ctx.require_counter("writer.string", 65536)
+    ctx.require_counter("const_strings_decompiled", 200)
+
+
+def end_to_end(ctx, rng):
+    """const-string instructions through the whole decompiler (observe_at DvMethod.get_source): `return <literal>;` must denote the constant.
+    Includes the strings that look like other Java tokens (true, false, null, numbers, identifiers, empty)."""
+    import re
+    from vf.checks import c21
+    from vf.model import dexw as W
+    special = ["true", "false", "null", "0", "1", "-1", "1.5", "0x10", "this", "super", "int", "a", "", " ", "True", "TRUE", "false ", "\"true\"", "'c'", "1L", "NaN", "void", "p0", "v0"]
+    n = 300 if ctx.quick else 6000
+    strs = special + gen_strings(rng, n)
+    per = 100
+    for base in range(0, len(strs), per):
+        chunk = strs[base:base + per]
+        m = W.DexModel()
+        c = m.add_class("Ls/K%d;" % base)
+        for i, st in enumerate(chunk):
+            c.add_method("s%d" % i, "Ljava/lang/String;", (), W.ACC_PUBLIC | W.ACC_STATIC, W.Code(1, 0, 0, [("const-string", 0, W.Str(st)), ("return-object", 0)]))
+        try:
+            d, dx = c21.load_dad(W.write_dex(m))
+            src = d.get_class("Ls/K%d;" % base).get_source()
+        except Exception as e:
+            ctx.violation("e2e-decompile-raises", "decompiling a class of const-string methods raises", {"exc": exc_str(e)})
+            continue
+        for i, st in enumerate(chunk):
+            ctx.ev()
+            ctx.count("const_strings_decompiled")
+            want = J.utf16_units(st)
+            mm = re.search(r" s%d\(\)\s*\{\s*return (.*?);\s*\n    \}" % i, src, re.S)
+            if not mm:
+                ctx.violation("e2e-method-not-printed", "a const-string method is missing / not of the form `return <literal>;` in the decompiled class", {"units": want[:40], "source": src[:300]})
+                continue
+            lit = mm.group(1).strip()
+            try:
+                got = J.jls_decode_string_literal(lit)
+            except J.JLSError as e:
+                mech = "e2e-constant-not-printed-as-string-literal" if not lit.startswith('"') else "e2e-literal-malformed-" + classify(st, lit, None)
+                ctx.violation(mech, "the decompiled method does not return a well-formed Java string literal", {"units": want[:40], "printed": lit[:200], "error": str(e)})
+                continue
+            if got != want:
+                ctx.violation("e2e-" + classify(st, lit, got), "the literal in the decompiled method denotes a different UTF-16 sequence", {"units": want[:40], "literal": lit[:200], "denotes": got[:40]})
+            ctx.sig("e2e", *sigclass(st))
 
 
 def javac_oracle(ctx, cases, lits):
